@@ -407,8 +407,11 @@ METHODS = ['_shift_settings_idx', 'ljust', 'rjust', 'center', 'assign_str', 'cli
            dict(py='insert_settings', point=True, types={'apply': 'bool', 'settings': 'slist', 'topmost': 'bool'}),
            dict(py='__next__', iter=True, lean='iterStep', after_target='settings',
                 entry=[('current_settings', 'slist'), ('settings', 'point'), ('with_assertions', 'bool')]),
+           dict(py='ansi_settings_at', lean='ansiSettingsAtCode', ret='slist'),
            dict(py='apply_formatting', lean='applyCore', after='_scrub_ansi_settings', join=True,
                 entry=[('ansi_settings', 'slist'), ('start', 'int'), ('end', 'int'), ('topmost', 'bool')]),
+           dict(py='find_settings', lean='findCore', after='_scrub_ansi_settings', ret='optpair', join=True,
+                entry=[('ansi_settings', 'slist'), ('start', 'int'), ('end', 'int'), ('reverse', 'bool')]),
            dict(py='__getitem__', lean='getItemCore', after_store='new_s._s', join=True,
                 entry=[('new_s', 'obj'), ('st', 'int'), ('en', 'int')]),
            dict(py='remove_formatting', lean='removeCore', after_store='if:ansi_settings', join=True,
